@@ -570,8 +570,15 @@ class MarkovNetwork(UndirectedGraph):
 
             # To compute clique potential, initially set it as unity factor
             var_card = [self.get_cardinality()[x] for x in node]
+            states = self.states
             clique_potential = DiscreteFactor(
-                node, var_card, np.ones(np.prod(var_card))
+                node,
+                var_card,
+                np.ones(np.prod(var_card)),
+                state_names={
+                    var: states.get(var, list(range(card)))
+                    for var, card in zip(node, var_card)
+                },
             )
             # multiply it with the factors associated with the variables present
             # in the clique (or node)
